@@ -46,6 +46,9 @@ def strategy():
             'chunk': st.sampled_from(CHUNKS),
             'post': st.sampled_from(POST),
             'short_step': st.integers(1, 70000),
+            # internal tuning constants (pack copy chunk, decompresser read chunk): the round trip must not depend on them
+            'copy_chunk': st.sampled_from([None, None, None, 1000, 4097, 65535, 65537]),
+            'dchunk': st.sampled_from([None, None, None, 1000, 4097, 524287]),
         }
     )
 
@@ -62,8 +65,17 @@ def run_case(case):  # pylint: disable=too-many-locals,too-many-branches,too-man
     hash_type = cfg['hash_type']
     data = content_of(case['content'])
     want_key = digest(hash_type, data)
+    from disk_objectstore import utils as _utils
+
+    if case.get('copy_chunk'):
+        class Container(Container):  # pylint: disable=function-redefined,too-few-public-methods
+            _CHUNKSIZE = case['copy_chunk']
+
     root = new_dir('c01')
     cont = Container(os.path.join(root, 'c'))
+    saved_dchunk = _utils.ZlibLikeBaseStreamDecompresser._CHUNKSIZE  # pylint: disable=protected-access
+    if case.get('dchunk'):
+        _utils.ZlibLikeBaseStreamDecompresser._CHUNKSIZE = case['dchunk']  # pylint: disable=protected-access
     try:
         cont.init_container(**config_kwargs(cfg))
         path = case['path']
@@ -193,6 +205,7 @@ def run_case(case):  # pylint: disable=too-many-locals,too-many-branches,too-man
             other.close()
         compressed = bool(meta.pack_compressed)
     finally:
+        _utils.ZlibLikeBaseStreamDecompresser._CHUNKSIZE = saved_dchunk  # pylint: disable=protected-access
         cont.close()
         rm_dir(root)
     size = len(data)
